@@ -189,6 +189,5 @@ def run(model, rep, rule='C06.E2E'):
         rep.check(not problems, rule, fi.loc(), 'probe `%s`: %d aliases (%s)' % (label, len(aliases), ', '.join('%s=%s' % (k, ast.unparse(v[0])[:18]) for k, v in sorted(aliases.items()))[:120]),
                   'putting the constants back gives the original program; every alias assigned once, at the top of a function / module body',
                   '; '.join(problems[:3]) + ' -- output: %r' % text[:160], key='%s|%s' % (rule, label))
-    if n_alias < 5:
-        raise AnalysisError('the hoisting probes produced only %d aliases: the enumeration does not reach the hoister' % n_alias)
+    rep.sensitive(n_alias >= 5, 'the hoisting probes produced only %d aliases: the enumeration does not reach the hoister' % n_alias)
     rep.floor(rule, 5)
